@@ -4,12 +4,13 @@
 For every /verif/seeded/<id>/patch.diff (or the ids given on the command
 line): copy /repo's bfg9000 package into a scratch directory outside /repo and
 /verif, apply the patch there, run the quick check of the property the seed
-targets (and, with --all, of every property) with --repo <scratch>, remove the
-scratch directory, and print which checks report a violation. Nothing in /repo
-is modified. (`--in-place` instead applies the patch to /repo itself, runs the
-registered MANIFEST quick command, and undoes it with git checkout.)
+targets (with --all: of every property; with --props=C01,C02: of those) with
+--repo <scratch>, remove the scratch directory, and print which checks report a
+violation. Nothing in /repo is modified. (`--in-place` instead applies the
+patch to /repo itself, runs the checks, and undoes it with git checkout.)
+With --all and no ids, /verif/seeded/RESULTS.md is rewritten.
 
-usage: run_seeded.py [--all] [--in-place] [id ...]
+usage: run_seeded.py [--all] [--props=..] [--in-place] [id ...]
 """
 import json
 import os
@@ -17,6 +18,7 @@ import shutil
 import subprocess
 import sys
 import tempfile
+from multiprocessing import Pool
 
 VERIF = os.path.dirname(os.path.dirname(os.path.abspath(__file__)))
 SEEDED = os.path.join(VERIF, 'seeded')
@@ -36,74 +38,105 @@ def run_check(prop, root):
     return p.returncode, viol, err
 
 
+def one(arg):
+    sid, props_mode, in_place = arg
+    d = os.path.join(SEEDED, sid)
+    meta = json.load(open(os.path.join(d, 'meta.json')))
+    target = meta['property']
+    props = ALL if props_mode == 'all' else (
+        props_mode if isinstance(props_mode, list) else [target])
+    if in_place:
+        root = '/repo'
+        subprocess.run(['git', '-C', '/repo', 'apply',
+                        os.path.join(d, 'patch.diff')], check=True)
+    else:
+        root = tempfile.mkdtemp(prefix='bfg_seed_')
+        shutil.copytree('/repo/bfg9000', os.path.join(root, 'bfg9000'),
+                        ignore=shutil.ignore_patterns('__pycache__'))
+        r = subprocess.run(['git', 'apply', '--unsafe-paths',
+                            '--directory=' + root,
+                            os.path.join(d, 'patch.diff')],
+                           cwd=root, stdout=subprocess.PIPE,
+                           stderr=subprocess.STDOUT, text=True)
+        if r.returncode != 0:
+            r = subprocess.run(['patch', '-p1', '-s', '-i',
+                                os.path.join(d, 'patch.diff')], cwd=root,
+                               stdout=subprocess.PIPE,
+                               stderr=subprocess.STDOUT, text=True)
+        if r.returncode != 0:
+            shutil.rmtree(root, ignore_errors=True)
+            return (sid, target, 'STALE-PATCH', [])
+    try:
+        hits = []
+        c = subprocess.run([PY, '-m', 'sa.multi', root, ','.join(props)],
+                           cwd=VERIF, stdout=subprocess.PIPE,
+                           stderr=subprocess.STDOUT, text=True,
+                           env=dict(os.environ, VERIF_NO_EVIDENCE='1'))
+        cur = None
+        for l in c.stdout.splitlines():
+            if l.startswith('## '):
+                p, rc = l[3:].split(' rc=')
+                cur = None
+                if rc == '1':
+                    cur = (p, [])
+                    hits.append(cur)
+                elif rc == '2':
+                    cur = (p + '(analysis-error)', [])
+                    hits.append(cur)
+            elif cur is not None:
+                cur[1].append(l.strip())
+        if c.returncode != 0:
+            hits.append(('multi(analysis-error)',
+                         c.stdout.splitlines()[-3:]))
+    finally:
+        if in_place:
+            subprocess.run(['git', '-C', '/repo', 'checkout', '--', '.'],
+                           check=True)
+        else:
+            shutil.rmtree(root, ignore_errors=True)
+    detected = any(h[0] == target for h in hits)
+    verdict = 'DETECTED' if detected else (
+        'other-property' if any('analysis-error' not in h[0] for h in hits)
+        else 'MISSED')
+    return (sid, target, verdict, hits)
+
+
 def main():
     args = sys.argv[1:]
     every = '--all' in args
     in_place = '--in-place' in args
+    mode = 'all' if every else 'target'
+    for a in args:
+        if a.startswith('--props='):
+            mode = a.split('=', 1)[1].split(',')
     ids = [a for a in args if not a.startswith('--')]
+    explicit = bool(ids)
     if not ids:
         ids = sorted(d for d in os.listdir(SEEDED)
                      if os.path.isfile(os.path.join(SEEDED, d, 'patch.diff')))
-    summary = []
-    for sid in ids:
-        d = os.path.join(SEEDED, sid)
-        meta = json.load(open(os.path.join(d, 'meta.json')))
-        target = meta['property']
-        props = ALL if every else [target]
-        if in_place:
-            root = '/repo'
-            subprocess.run(['git', '-C', '/repo', 'apply',
-                            os.path.join(d, 'patch.diff')], check=True)
-        else:
-            root = tempfile.mkdtemp(prefix='bfg_seed_')
-            shutil.copytree('/repo/bfg9000', os.path.join(root, 'bfg9000'),
-                            ignore=shutil.ignore_patterns('__pycache__'))
-            r = subprocess.run(['git', 'apply', '--unsafe-paths',
-                                '--directory=' + root,
-                                os.path.join(d, 'patch.diff')],
-                               cwd=root, stdout=subprocess.PIPE,
-                               stderr=subprocess.STDOUT, text=True)
-            if r.returncode != 0:
-                r = subprocess.run(['patch', '-p1', '-s', '-i',
-                                    os.path.join(d, 'patch.diff')], cwd=root,
-                                   stdout=subprocess.PIPE,
-                                   stderr=subprocess.STDOUT, text=True)
-            if r.returncode != 0:
-                print('{}: patch does not apply: {}'.format(sid, r.stdout))
-                shutil.rmtree(root, ignore_errors=True)
-                summary.append((sid, target, 'PATCH-FAILED', []))
-                continue
-        try:
-            hits = []
-            for p in props:
-                rc, viol, err = run_check(p, root)
-                if rc == 1:
-                    hits.append((p, viol))
-                elif rc == 2:
-                    hits.append((p + '(analysis-error)', err))
-        finally:
-            if in_place:
-                subprocess.run(['git', '-C', '/repo', 'checkout', '--', '.'],
-                               check=True)
-            else:
-                shutil.rmtree(root, ignore_errors=True)
-        detected = any(h[0] == target for h in hits)
-        summary.append((sid, target, 'DETECTED' if detected else (
-            'other-property' if any('analysis-error' not in h[0]
-                                    for h in hits) else 'MISSED'), hits))
-        print('{:28s} target={} -> {}'.format(
-            sid, target, summary[-1][2]))
+    if isinstance(mode, list) and not explicit:
+        ids = [i for i in ids if i.split('-')[0] in mode]
+    jobs = [(sid, mode, in_place) for sid in ids]
+    if in_place:
+        summary = [one(j) for j in jobs]
+    else:
+        with Pool(12) as pool:
+            summary = pool.map(one, jobs)
+    for sid, target, verdict, hits in summary:
+        print('{:28s} target={} -> {}'.format(sid, target, verdict))
         for p, lines in hits:
             for l in lines[:3]:
                 print('     {}: {}'.format(p, l[:200]))
-    if every and not [a for a in args if not a.startswith('--')]:
+    if every and not explicit:
         with open(os.path.join(SEEDED, 'RESULTS.md'), 'w') as f:
             f.write('# Seeded breakages vs. quick checks\n\n'
                     'Generated by `tools/run_seeded.py --all` (each patch '
                     'applied to a scratch copy of /repo\'s package; every '
-                    'property\'s quick check run with `--repo <scratch>`).'
-                    '\n\n| seed | target | verdict | reported by (rule '
-                    'instances) |\n|---|---|---|---|\n')
+                    'property\'s quick check run with `--repo <scratch>`). '
+                    'Seeds `Cxx-sN` are round 1 (the checks were '
+                    'strengthened with these in view), `Cxx-r2-N` are the '
+                    'held-out round 2.\n\n| seed | target | verdict | '
+                    'reported by (rule instances) |\n|---|---|---|---|\n')
             for sid, target, verdict, hits in summary:
                 cell = []
                 for p_, lines in hits:
@@ -113,19 +146,25 @@ def main():
                                                 'analysis-error'))
                 f.write('| {} | {} | {} | {} |\n'.format(
                     sid, target, verdict, '; '.join(cell)))
-            n_ = len(summary)
-            f.write('\n{} seeds: {} reported by their target property, {} '
-                    'only by another property, {} missed.\n'.format(
-                        n_, sum(1 for s_ in summary if s_[2] == 'DETECTED'),
-                        sum(1 for s_ in summary
-                            if s_[2] == 'other-property'),
-                        sum(1 for s_ in summary if s_[2] == 'MISSED')))
+            for tag, name in (('-s', 'round 1'), ('-r2-', 'round 2 '
+                                                  '(held out)')):
+                part = [s_ for s_ in summary if tag in s_[0]]
+                f.write('\n{}: {} seeds, {} reported by their target '
+                        'property, {} only by another property, {} missed, '
+                        '{} stale.\n'.format(
+                            name, len(part),
+                            sum(1 for s_ in part if s_[2] == 'DETECTED'),
+                            sum(1 for s_ in part
+                                if s_[2] == 'other-property'),
+                            sum(1 for s_ in part if s_[2] == 'MISSED'),
+                            sum(1 for s_ in part if s_[2] == 'STALE-PATCH')))
     n = len(summary)
-    det = sum(1 for s in summary if s[2] == 'DETECTED')
     print('\n{} seeds, {} detected by their target property, {} only by '
-          'another property, {} missed'.format(
-              n, det, sum(1 for s in summary if s[2] == 'other-property'),
-              sum(1 for s in summary if s[2] == 'MISSED')))
+          'another property, {} missed, {} stale'.format(
+              n, sum(1 for s in summary if s[2] == 'DETECTED'),
+              sum(1 for s in summary if s[2] == 'other-property'),
+              sum(1 for s in summary if s[2] == 'MISSED'),
+              sum(1 for s in summary if s[2] == 'STALE-PATCH')))
 
 
 if __name__ == '__main__':
